@@ -16,6 +16,7 @@ Definition C12_description_roundtrip_full : Prop :=
     block_string_value (unescape_triple (description_body o desc depth)) = desc.
 
 (* the document a SDL-expressible schema prints to builds an equivalent schema *)
+(* (false as it stands: C12_members_roundtrip_refuted) *)
 Definition C12_members_roundtrip_full : Prop :=
   forall sc, schema_okb sc = true -> members_roundtrip sc = true.
 
@@ -34,7 +35,9 @@ Definition C12_roundtrip_full (parse : str -> outcome document) : Prop :=
 
 (* default values of every input kind except input objects: the literal the
    printer writes for a conforming value coerces back to that value, at every
-   fuel above a bound, whether the builder forces defaults eagerly or not *)
+   fuel above a bound, whether the builder forces defaults eagerly or not
+   (custom scalars: booleans, floats, strings that are not number literals;
+   ints: C12_custom_int_roundtrip; number-looking strings: the open finding) *)
 Theorem C12_default_roundtrip_partial : forall E t v,
   conforms E t v ->
   exists k, forall fuel, k <= fuel ->
@@ -42,6 +45,30 @@ Theorem C12_default_roundtrip_partial : forall E t v,
               /\ forall eager stack fuel', k <= fuel' -> coerce fuel' eager E stack t n = Ok v.
 Proof. exact default_roundtrip. Qed.
 Print Assumptions C12_default_roundtrip_partial.
+
+(* int values of custom scalars: printed as a FloatValue node holding the
+   integer's text, which the printed document carries as an IntValue *)
+Theorem C12_custom_int_roundtrip : forall E n z fuel fuel' eager stack,
+  mem_str n specified_scalars = false -> alookup n E = Some IScalar ->
+  node_of_value (S fuel) E (PInt z) (RNamed n) = Ok (VFloat (str_of_Z z) None)
+  /\ coerce (S fuel') eager E stack (RNamed n) (VInt (str_of_Z z) None) = Ok (PInt z).
+Proof. exact custom_int_roundtrip. Qed.
+Print Assumptions C12_custom_int_roundtrip.
+
+(* open finding custom-scalar-numeric-string-default: a *string* default of a
+   custom scalar whose text is a GraphQL number literal is printed as that
+   number and builds back as a number; C12_members_roundtrip_full is false *)
+Definition numeric_string_schema : schema :=
+  Sch [TObject (s "Query") None []
+         [SF (s "a") (s "a") [SIV (s "x") (s "x") (RNamed (s "S")) (Some (PStr (s "1.50"))) None []]
+             (RNamed (s "Int")) None None []] [];
+       TScalar (s "S") None []]
+      [] (Some (s "Query")) None None [].
+
+Theorem C12_members_roundtrip_refuted :
+  exists sc, schema_okb sc = true /\ members_roundtrip sc = false.
+Proof. exists numeric_string_schema; split; vm_compute; reflexivity. Qed.
+Print Assumptions C12_members_roundtrip_refuted.
 
 (* descriptions of one line without double quotes *)
 Theorem C12_description_roundtrip_partial : forall o desc depth,
@@ -76,7 +103,7 @@ Definition ex_env : env :=
 
 Example C12_conforms_instance :
   conforms ex_env (RNonNull (RList (RNamed (s "Color")))) (PList [PInt 1; PNone; PStr (s "g")])
-  /\ conforms ex_env (RList (RNonNull (RNamed (s "Date")))) (PList [PStr (s "1.50"); PBool true])
+  /\ conforms ex_env (RList (RNonNull (RNamed (s "Date")))) (PList [PStr (s "2020-01-01"); PBool true; PFloat (s "2.5")])
   /\ conforms ex_env (RNamed (s "Float")) (PFloat (s "1.5"))
   /\ conforms ex_env (RNonNull (RNamed (s "Int"))) (PInt (-2147483647)).
 Proof.
@@ -87,6 +114,7 @@ Proof.
     apply cf_list_cons; [eapply cf_enum; try reflexivity; discriminate|apply cf_list_nil].
   - apply cf_list_cons; [apply cf_nonnull; [reflexivity|discriminate|apply cf_custom_str; reflexivity]|].
     apply cf_list_cons; [apply cf_nonnull; [reflexivity|discriminate|apply cf_custom_bool; reflexivity]|].
+    apply cf_list_cons; [apply cf_nonnull; [reflexivity|discriminate|apply cf_custom_float; reflexivity]|].
     apply cf_list_nil.
   - apply cf_float; reflexivity.
   - apply cf_nonnull; [reflexivity|discriminate|apply cf_int; reflexivity].
